@@ -282,6 +282,7 @@ package keeper
 //@   let vf0 = k.GetVault(ctx, msg.UserVaultId).1
 //@   requires #app-keyed: k.asset.GetApp(ctx, msg.AppId).1 ==> k.asset.GetApp(ctx, msg.AppId).0.Id == msg.AppId
 //@   requires #pairsvault-keyed: k.asset.GetPairsVault(ctx, msg.ExtendedPairVaultId).1 ==> k.asset.GetPairsVault(ctx, msg.ExtendedPairVaultId).0.Id == msg.ExtendedPairVaultId
+//@   requires #nonneg-book: forall a, b :: K("collector").GetNetFeeCollectedData(ctx, a, b).1 ==> K("collector").GetNetFeeCollectedData(ctx, a, b).0.NetFeesCollected >= 0
 //@   ensures [C12] #c12-owner: ok ==> vf0 && msg.From == v0.Owner
 //@   ensures [C12] #c12-own-app: ok ==> v0.AppId == msg.AppId && v0.ExtendedPairVaultID == msg.ExtendedPairVaultId
 //@   fails_if [C14] #c14-breaker: k.esm.GetKillSwitchData(ctx, msg.AppId).0.BreakerEnable
